@@ -2,8 +2,10 @@
 //
 // Value wire format (one word, no blanks); the TYPE word of the case selects the static C++ type and the value must
 // have that type's shape:
-//   leaf      <k><payload>[#<16 hex digits>]   k: c signed char, h short, i int, u unsigned, l long long, b bool (decimal);
-//                                              f float, d double (strtod text); s std::string (hex, '-' = empty).
+//   leaf      <k><payload>[#<16 hex digits>]   k: c signed char, h short, i int, u unsigned, l long long, b bool, a char, k unsigned char,
+//                                              g unsigned short, n long, m unsigned long long, o wchar_t, q char16_t, j char32_t (decimal);
+//                                              f float, d double, e long double (strtod text); s std::string, w std::wstring,
+//                                              x std::u16string, y std::u32string (hex of the ASCII characters, '-' = empty).
 //                                              The part after '#' (the std::hash word the model was given) is ignored here:
 //                                              the driver computes std::hash itself and reports it under LH.
 //   tuple     T(v,v,...)     pair  P(v,v)     variant  V<k>(v)     unique_ptr/shared_ptr  U(v)     tuple_operators type  O(v,...)
@@ -62,6 +64,14 @@ struct E : nl::tuple_operators<E>
 {
     auto as_tuple() { return std::tie(); }
 };
+struct M : nl::tuple_operators<M>   // the remaining std_hashable leaf types: character types, wide integers, long double, wide strings
+{
+    char a; unsigned short g; unsigned long long m; long double e; char32_t j; std::wstring w; std::u16string x; std::u32string y;
+    M(char a, unsigned short g, unsigned long long m, long double e, char32_t j, std::wstring w, std::u16string x, std::u32string y)
+    : a(a), g(g), m(m), e(e), j(j), w(std::move(w)), x(std::move(x)), y(std::move(y)) {}
+    auto as_tuple() { return std::tie(a, g, m, e, j, w, x, y); }
+};
+using M2 = std::tuple<unsigned char, long, wchar_t, char16_t>;
 struct N : nl::tuple_operators<N>   // integers of several widths, bool, float
 {
     signed char c; unsigned u; long long l; bool b; float f;
@@ -135,6 +145,14 @@ template <> struct Parse<int> : ParseInt<int, 'i'> {};
 template <> struct Parse<unsigned> : ParseInt<unsigned, 'u'> {};
 template <> struct Parse<long long> : ParseInt<long long, 'l'> {};
 template <> struct Parse<bool> : ParseInt<bool, 'b'> {};
+template <> struct Parse<char> : ParseInt<char, 'a'> {};
+template <> struct Parse<unsigned char> : ParseInt<unsigned char, 'k'> {};
+template <> struct Parse<unsigned short> : ParseInt<unsigned short, 'g'> {};
+template <> struct Parse<long> : ParseInt<long, 'n'> {};
+template <> struct Parse<unsigned long long> : ParseInt<unsigned long long, 'm'> {};
+template <> struct Parse<wchar_t> : ParseInt<wchar_t, 'o'> {};
+template <> struct Parse<char16_t> : ParseInt<char16_t, 'q'> {};
+template <> struct Parse<char32_t> : ParseInt<char32_t, 'j'> {};
 template <typename T, char K> struct ParseFloat
 {
     static T get(Cur& c)
@@ -150,6 +168,21 @@ template <typename T, char K> struct ParseFloat
 };
 template <> struct Parse<float> : ParseFloat<float, 'f'> {};
 template <> struct Parse<double> : ParseFloat<double, 'd'> {};
+template <> struct Parse<long double> : ParseFloat<long double, 'e'> {};
+template <typename S, char K> struct ParseWide
+{
+    static S get(Cur& c)
+    {
+        std::string narrow = vh::unhex(c.leaf(K));
+        S r;
+        for (unsigned char ch : narrow) r.push_back(static_cast<typename S::value_type>(ch));
+        c.lh.push_back(std::hash<S>()(r));
+        return r;
+    }
+};
+template <> struct Parse<std::wstring> : ParseWide<std::wstring, 'w'> {};
+template <> struct Parse<std::u16string> : ParseWide<std::u16string, 'x'> {};
+template <> struct Parse<std::u32string> : ParseWide<std::u32string, 'y'> {};
 template <> struct Parse<std::string>
 {
     static std::string get(Cur& c)
@@ -292,6 +325,23 @@ template <> struct Parse<OV>
         return OV(std::move(v), i);
     }
 };
+template <> struct Parse<M>
+{
+    static M get(Cur& c)
+    {
+        c.eat("O(");
+        auto a = Parse<char>::get(c); c.eat(',');
+        auto g = Parse<unsigned short>::get(c); c.eat(',');
+        auto m = Parse<unsigned long long>::get(c); c.eat(',');
+        auto e = Parse<long double>::get(c); c.eat(',');
+        auto j = Parse<char32_t>::get(c); c.eat(',');
+        auto w = Parse<std::wstring>::get(c); c.eat(',');
+        auto x = Parse<std::u16string>::get(c); c.eat(',');
+        auto y = Parse<std::u32string>::get(c);
+        c.eat(')');
+        return M(a, g, m, e, j, w, x, y);
+    }
+};
 template <> struct Parse<E>
 {
     static E get(Cur& c) { c.eat("O()"); return E(); }
@@ -372,6 +422,21 @@ template <typename T> std::string run_typed(const std::vector<std::string>& w)
             r += std::string(" EQ ") + (a == b ? "1" : "0") + " OPS ";
             r += (a < b ? '1' : '0'); r += (a <= b ? '1' : '0'); r += (a > b ? '1' : '0');
             r += (a >= b ? '1' : '0'); r += (a == b ? '1' : '0'); r += (a != b ? '1' : '0');
+            // the same through other forms of the operands: non-const lvalue against const lvalue, temporaries
+            T na(a);
+            auto six = [](auto&& p, auto&& q) {
+                std::string o;
+                o += (p < q ? '1' : '0'); o += (p <= q ? '1' : '0'); o += (p > q ? '1' : '0');
+                o += (p >= q ? '1' : '0'); o += (p == q ? '1' : '0'); o += (p != q ? '1' : '0');
+                return o;
+            };
+            std::string ref = six(a, b);
+            if (six(na, b) != ref || six(T(a), T(b)) != ref || six(b, na) != six(b, a)) r += " FORMS-DIFFER";
+            if (nl::hash(T(a)) != nl::hash(a) || nl::hash(na) != nl::hash(a)) r += " FORMS-DIFFER";
+        }
+        if constexpr (std::is_base_of<nl::hashable, T>::value)
+        {
+            if (x->hash() != nl::hash(*x)) r += " MEMBER-HASH-DIFFERS";   // t.hash() and hash(t) are one function
         }
         return r + " LH " + lh_str(lx, ly);
     }
@@ -397,6 +462,18 @@ template <typename T> std::string run_typed(const std::vector<std::string>& w)
                 for (auto& v : ins) s.insert(v);
                 std::string bits;
                 for (auto& v : probes) bits += (s.find(v) != s.end() ? '1' : '0');
+                // the same look-ups after a rehash, through count(), and after erasing one key
+                s.rehash(4 * s.bucket_count() + 7);
+                std::string bits2, bits3;
+                for (auto& v : probes) { bits2 += (s.find(v) != s.end() ? '1' : '0'); bits3 += (s.count(v) == 1 ? '1' : '0'); }
+                if (bits2 != bits || bits3 != bits) bits += "!REHASH";
+                if (!ins.empty())
+                {
+                    nl::unordered_set<T> s2(s);
+                    std::size_t before = s2.size();
+                    if (s2.erase(ins[0]) != 1 || s2.size() + 1 != before || s2.find(ins[0]) != s2.end()) bits += "!ERASE";
+                    for (auto& v : ins) if (!(v == ins[0]) && s2.find(v) == s2.end()) bits += "!ERASE-LOST";
+                }
                 bool all_iter = true;   // iterating the container meets every inserted key again
                 for (auto& v : ins) { bool f = false; for (auto& k : s) if (k == v) f = true; all_iter = all_iter && f; }
                 return "S " + std::to_string(s.size()) + " " + (bits.empty() ? "." : bits) + (all_iter ? "" : " ITER-MISSES");
@@ -422,7 +499,7 @@ template <typename T> struct Mut;
 template <> struct Mut<P>
 {
     static void members(P& x, const P& b) { x.i = b.i; x.s = b.s; x.d = b.d; }
-    static void tie(P& x, const P& b) { x.as_tuple() = std::make_tuple(b.i, b.s, b.d); }
+    static void tie(P& x, const P& b) { nl::as_tuple(x) = std::make_tuple(b.i, b.s, b.d); }   // the free function, non-const overload
 };
 template <> struct Mut<Q>
 {
@@ -490,6 +567,7 @@ using T3 = std::tuple<int, std::string, double>;
 using T0 = std::tuple<>;
 using T1 = std::tuple<std::string>;
 using TI2 = std::tuple<int, int>;
+using TI3 = std::tuple<int, int, int>;
 using TN = std::tuple<short, std::tuple<int, std::string>, P>;
 using PR = std::pair<int, std::string>;
 using PI2 = std::pair<int, int>;
@@ -524,6 +602,18 @@ static std::string run_case(const std::vector<std::string>& w)
             case 'f': Parse<float>::get(c); break;
             case 'd': Parse<double>::get(c); break;
             case 's': Parse<std::string>::get(c); break;
+            case 'a': Parse<char>::get(c); break;
+            case 'k': Parse<unsigned char>::get(c); break;
+            case 'g': Parse<unsigned short>::get(c); break;
+            case 'n': Parse<long>::get(c); break;
+            case 'm': Parse<unsigned long long>::get(c); break;
+            case 'o': Parse<wchar_t>::get(c); break;
+            case 'q': Parse<char16_t>::get(c); break;
+            case 'j': Parse<char32_t>::get(c); break;
+            case 'e': Parse<long double>::get(c); break;
+            case 'w': Parse<std::wstring>::get(c); break;
+            case 'x': Parse<std::u16string>::get(c); break;
+            case 'y': Parse<std::u32string>::get(c); break;
             default: return "BADCASE";
             }
             if (!c.ok || c.i != tok.size() || c.lh.size() != 1) return "BADCASE";
@@ -544,10 +634,10 @@ static std::string run_case(const std::vector<std::string>& w)
     if (w[0] == "h") return t == "P" ? run_history<P>(w) : t == "Q" ? run_history<Q>(w) : std::string("BADCASE");
 #define TY(name, type) if (t == name) return run_typed<type>(w);
     TY("S", std::string) TY("P", P) TY("Q", Q) TY("R", R) TY("E", E) TY("N", N)
-    TY("T3", T3) TY("T0", T0) TY("T1", T1) TY("TI2", TI2) TY("TN", TN)
+    TY("T3", T3) TY("T0", T0) TY("T1", T1) TY("TI2", TI2) TY("TI3", TI3) TY("TN", TN)
     TY("PR", PR) TY("PI2", PI2) TY("PRN", PRN) TY("V3", V3)
     TY("UP", UP) TY("SQ", SQ) TY("TU", TU) TY("PV", PV)
-    TY("VT", VT) TY("TV", TV) TY("PVT", PVT) TY("OV", OV) TY("UV", UV)
+    TY("M", M) TY("M2", M2) TY("VT", VT) TY("TV", TV) TY("PVT", PVT) TY("OV", OV) TY("UV", UV)
 #undef TY
     return "BADCASE";
 }
